@@ -310,6 +310,21 @@ theorem code_authenticator_leaves_cache_alone_without_a_key (rc : Gen.Code.Repla
 
 end Authenticator
 
+def exampleFA : Tie.Auth.FA := (some { Gen.Code.CipherEntry.zero with ID := "k", CryptoKey := ⟨1⟩, SaltGenerator := ⟨9⟩ }, ⟨2⟩, [1, 2, 3, 4, 5, 6, 7, 8], 0, none)
+
+/-- non-vacuity: the hypotheses of the window theorem about the translated authenticator are met by a concrete run —
+    an entry "k", an 8-byte salt no generator recognises, a cache of capacity 4, nothing in between -/
+example : ∃ rc1 id1 c1 st1 ef1 rc2 rc3 ef3,
+    Gen.Code.NewShadowsocksStreamAuthenticator (fun _ _ => ⟨0⟩) (fun _ _ => ⟨0⟩) (fun _ _ => false) (fun _ _ _ => ⟨77⟩)
+      (fun _ _ _ _ => exampleFA) (fun _ => ⟨0⟩) ⟨0⟩ { Gen.Code.ReplayCache.zero with capacity := 4 } ⟨0⟩ ⟨0⟩ ⟨5⟩ = some (rc1, id1, c1, st1, ef1) ∧
+    codeAdds rc1 [] = some rc2 ∧
+    Gen.Code.NewShadowsocksStreamAuthenticator (fun _ _ => ⟨0⟩) (fun _ _ => ⟨0⟩) (fun _ _ => false) (fun _ _ _ => ⟨77⟩)
+      (fun _ _ _ _ => exampleFA) (fun _ => ⟨0⟩) ⟨0⟩ rc2 ⟨0⟩ ⟨0⟩ ⟨6⟩ = some (rc3, "k", ⟨0⟩, some "ERR_REPLAY_CLIENT", ef3) :=
+  code_authenticator_refuses_replay_within_window (N := 1) (mid := []) (rd := ⟨2⟩) (rd' := ⟨2⟩) (t := 0) (t' := 0)
+    (e := { Gen.Code.CipherEntry.zero with ID := "k", CryptoKey := ⟨1⟩, SaltGenerator := ⟨9⟩ }) (salt := [1, 2, 3, 4, 5, 6, 7, 8])
+    (hfa := rfl) (hfa' := rfl) (hns := rfl) (hcap := by decide) (hnum := by decide) ..
+
+
 /-- **add_is_one_critical_section**: the theorems above are about `Add` as a sequential function (the translation drops
     the lock operations); they speak about concurrent callers because every access `Add` and `Resize` make to the
     cache's fields — `capacity`, `active`, `archive`, the lookup in the archive included — happens inside ONE critical
